@@ -45,7 +45,23 @@ func c16Histories(quick bool) [][]SeqOp {
 		}
 		return append(h, mk(n, true, false)...)
 	}
-	hs := [][]SeqOp{mk(7, false, false), mk(8, true, false), mk(9, true, true), mk(12, true, true), upd(7)}
+	// order-sensitive histories that span a rewrite file and later append files: a depth-2 hold partially
+	// released after it was compacted, and a multi-holder key whose value is set again by a later holder
+	ord := func() []SeqOp {
+		v1 := protocol.NewLockCommandDataSetString("v-one").Data
+		v2 := protocol.NewLockCommandDataSetString("v-two").Data
+		h := []SeqOp{
+			op(0, z(L(0, 40, 40, 0, 90, 0, 1))), op(0, z(L(0, 40, 40, 0, 90, 0, 1))), // depth 2
+			op(0, withData(z(L(0, 41, 1, 0, 90, 1, 0)), v1)),
+		}
+		h = append(h, mk(4, false, false)...) // rotations + first compactions
+		h = append(h, op(0, hapi.Cmd{Type: 2, Key: 40, Id: 40, Rcount: 1}), op(0, withData(z(L(0, 41, 2, 0, 90, 1, 0)), v2)))
+		for i := 50; i < 56; i++ {
+			h = append(h, op(0, z(L(0, byte(i), byte(i), 0, 90, 0, 0))))
+		}
+		return h
+	}
+	hs := [][]SeqOp{mk(7, false, false), mk(8, true, false), mk(9, true, true), mk(12, true, true), upd(7), ord()}
 	if !quick {
 		hs = append(hs, mk(5, true, false), mk(10, false, true), mk(14, true, true), mk(16, true, false),
 			append(mk(6, true, false), tick(3*sec), op(0, z(L(0, 20, 20, 0, 2, 0, 0))), tick(4*sec), op(0, z(L(0, 21, 21, 0, 90, 0, 0))), op(0, z(L(0, 22, 22, 0, 90, 0, 0)))))
